@@ -256,7 +256,8 @@ def check_firing(f, rng=None, max_points=48):
         ident = digest(lhs) == digest(rhs)
     except Exception:
         pass
-    if f.interp in SEMIRING_INTERPS or lhs[0] == "contr" or f.interp == "subs":
+    kinds = set(kinds_in(lhs)) | set(kinds_in(rhs))
+    if f.interp in SEMIRING_INTERPS or f.interp == "subs" or any(k.startswith("contr") for k in kinds):
         why = out_of_carrier(lhs, rhs)
         if why:
             return FiringVerdict("out-of-carrier", None, why)
